@@ -12,6 +12,8 @@ each a z3 Bool `violated` that callers ask the solver about.
 Memory: flat 64-bit addresses; Array(BV64 -> BV8); little-endian.
 """
 
+import time
+
 import z3
 
 from vf import llparse
@@ -92,6 +94,13 @@ class Executor:
     def __init__(self, module, unroll=4, check_flags=True, max_nodes=4000, call_depth=40):
         self.m = module
         self.unroll = unroll
+        self.prune = None  # list of precondition formulas: enables solver-based pruning of loop edges
+        self.prune_ms = 2000
+        self.allow_unmodelled = False  # True: calls to unmodelled externals become 'unmodelled-call' obligations
+        self.deadline = None  # wall-clock limit for symbolic execution (time.time() value)
+        self.prune_all = False  # also prune (and resolve) ordinary branches, not only loop edges
+        self.prune_queries = 0
+        self.pruned_edges = 0
         self.check_flags = check_flags
         self.max_nodes = max_nodes
         self.call_depth = call_depth
@@ -164,6 +173,8 @@ class Executor:
             data = self.global_bytes(name)
             if data is None or len(data) > 4096:
                 continue
+            if isinstance(g.init, BytesConst) and strings is not True and len(data) > int(strings):
+                continue  # strings=N: only string constants of at most N bytes (digit tables, not messages)
             base = self.global_addr[name]
             for i, b in enumerate(data):
                 mem = z3.Store(mem, bv(base + i, 64), bv(b, 8))
@@ -402,6 +413,8 @@ class Executor:
             ins_states = incoming.pop(node, [])
             if not ins_states:
                 continue
+            if self.deadline is not None and time.time() > self.deadline:
+                raise NotEncoded("execution budget exceeded in %s" % fname)
             st = self._merge(ins_states)
             if z3.is_false(st.guard):
                 continue
@@ -427,11 +440,30 @@ class Executor:
                 res.reaches_unreachable = z3.Or(res.reaches_unreachable, st.guard)
             elif term.op in ("br", "switch"):
                 conds = self._edge_conds(st, term)
+                edges = []
                 for (tgt, ei) in nodes[node]:
                     c = conds[ei]
                     eg = _simp(z3.And(st.guard, c))
                     if z3.is_false(eg):
                         continue
+                    if self.prune is not None and not z3.is_true(eg) and not z3.is_true(_simp(c)) and (
+                            self.prune_all or tgt == "EXCEEDED" or tgt[1] != node[1]):
+                        # feasibility pruning: an edge whose guard is unsatisfiable under the harness
+                        # precondition is dropped (sound: the guard is false in every model)
+                        ps = z3.Solver()
+                        ps.set("timeout", self.prune_ms)
+                        ps.add(*self.prune)
+                        ps.add(eg)
+                        self.prune_queries += 1
+                        if str(ps.check()) == "unsat":
+                            self.pruned_edges += 1
+                            continue
+                    edges.append((tgt, eg))
+                if self.prune is not None and self.prune_all and len(edges) == 1 and len(nodes[node]) > 1:
+                    # every other edge was shown infeasible under the precondition: the branch is determined,
+                    # so the surviving edge's guard is the state's guard (equivalent under the precondition)
+                    edges = [(edges[0][0], st.guard)]
+                for (tgt, eg) in edges:
                     if tgt == "EXCEEDED":
                         res.unwind_exceeded = z3.Or(res.unwind_exceeded, eg)
                         continue
@@ -567,9 +599,9 @@ class Executor:
             # if-then-else chains over the table's entries instead of array reads
             if isinstance(ins.args[0], GlobalRef) and not z3.is_bv_value(r):
                 g = self.m.globals.get(ins.args[0].name)
-                if g is not None and g.constant and not isinstance(g.init, BytesConst):
+                if g is not None and g.constant:
                     data = self.global_bytes(ins.args[0].name)
-                    if data is not None and len(data) <= 2048:
+                    if data is not None and len(data) <= (64 if isinstance(g.init, BytesConst) else 2048):
                         self._table_ptr = getattr(self, "_table_ptr", {})
                         self._table_ptr[r.get_id()] = (data, _simp(off), r)
             return True
@@ -859,7 +891,9 @@ class Executor:
             if ins.res is not None:
                 env[ins.res] = sub.ret
             return not z3.is_false(st.guard)
-        # an external function without a model: reaching the call is an obligation of its own
+        if not self.allow_unmodelled:
+            raise NotEncoded("call to external %s" % name)
+        # opt-in: an external function without a model; reaching the call is an obligation of its own
         # ("unmodelled-call" must be unreachable for the function to count as encoded)
         self._oblige(res, "unmodelled-call", site, st, z3.BoolVal(True), name)
         if "throw" in name or name in ("abort", "exit", "_ZSt9terminatev"):
